@@ -9,7 +9,7 @@ wt=/tmp/wt-eval-$id
 git -C /repo worktree remove --force $wt 2>/dev/null
 git -C /repo worktree add -q $wt HEAD || exit 2
 out=/verif/seeded/$id; mkdir -p $out
-cp $src/patch.diff $src/meta.json $out/ 2>/dev/null
+cp -r $src/* $out/ 2>/dev/null; rm -rf $out/__pycache__
 demo=$(ls $src | grep -E '^(test_)?demo.*\.py$' | head -1); cp $src/$demo $out/
 run_demo() { (cd $awt && PYTHONPATH=asl-workflow-engine/py timeout 300 /venv/bin/python _seeded/$n/$demo >/tmp/demo_out_$id.txt 2>&1; echo $?); }
 (cd $awt && git checkout -q -- .)
@@ -22,7 +22,7 @@ tests=$(cd $awt && timeout 900 /venv/bin/python -m pytest -q -p no:cacheprovider
 echo "demo clean=$clean patched=$patched tests: $tests"
 res=""
 for c in "$@"; do
-  r=$(cd /verif && VERIF_REPO=$wt VERIF_PROCS=16 ./check $c 2>&1 | grep -E "^VIOLATION|^  rule|quick:" | head -7 | cut -c1-260)
+  r=$(cd /verif && VERIF_EVIDENCE_DIR=/tmp/ev-seeded VERIF_REPO=$wt VERIF_PROCS=${VERIF_PROCS:-8} ./check $c 2>&1 | grep -E "^VIOLATION|^  rule|quick:" | head -7 | cut -c1-260)
   code=$(echo "$r" | grep -c VIOLATION)
   echo "== $c: $( [ $code -gt 0 ] && echo DETECTED || echo missed )"; echo "$r" | grep -E "rule|quick" | head -3
   res="$res $c:$( [ $code -gt 0 ] && echo detected || echo missed )"
